@@ -3956,6 +3956,9 @@ class OptionalNode(ActionSinkNode):
         sub_dfa = self.sub_contents.convert(current_error_handlers)
         if sub_dfa.starting_state in sub_dfa.accepting_states:
             raise IllegalDFAStateError("Ambigious path in optional: should use optional or go to next", sub_dfa.starting_state)
+        if isinstance(sub_dfa.starting_state, DFProxyState):
+            # Whether the optional is taken is decided by the next byte, which needs a state that matches something
+            raise IllegalDFAStateError("An optional must begin with a match, not with a condition or yield", sub_dfa.starting_state)
 
         sub_dfa.mark_accepting(sub_dfa.starting_state)
 
